@@ -64,6 +64,13 @@ func GenGitLog(t *tape.Tape) string {
 	var b []string
 	b = append(b, "")
 	n := t.Int(3, 10)
+	if t.Bool(1, 4) {
+		// a wide history: one change type touches a dozen files, another only a few
+		for k := 0; k < 14; k++ {
+			files = append(files, fmt.Sprintf("wide/F%02d.java", k))
+		}
+	}
+	wide := len(files) > 6
 	live := map[string]bool{}
 	for i := 0; i < n; i++ {
 		rev := fmt.Sprintf("%07x", 0xabc000+i*37+t.Pick(16))
@@ -77,6 +84,9 @@ func GenGitLog(t *tape.Tape) string {
 		}
 		b = append(b, fmt.Sprintf("[%s] %s %s %s", rev, authors[t.Pick(len(authors))], date, msg))
 		nc := t.Int(1, 4)
+		if wide && t.Bool(1, 3) {
+			nc = t.Int(8, 14)
+		}
 		var summary []string
 		seen := map[string]bool{}
 		for c := 0; c < nc; c++ {
